@@ -259,12 +259,15 @@ func CheckC19(o *Outcome) *vh.Finding {
 			if gotN > so.SentLines || gotN < so.SentLines-garbage || gotB > so.SentBytes || gotB < so.SentBytes-20*garbage || (so.SentLines-gotN)*20 != so.SentBytes-gotB {
 				return vh.Fail("metrics:input-balance", "stop %d: %d messages (%d bytes, of which %d non-record first lines) were sent on connections that were closed before the stop, input passed+dropped = %v+%v records, %v+%v bytes", so.Gen, so.SentLines, so.SentBytes, garbage, inPass, inDrop, inPassB, inDropB)
 			}
-			wantDrop, wantFiltered := 0, 0
+			wantDrop, wantFiltered, wantXFiltered := 0, 0, 0
 			wantFilteredBySource := map[string]int{}
 			for _, e := range o.Expected {
 				if e.Gen == so.Gen && e.Must {
 					if e.Kind == 2 {
 						wantDrop++
+					}
+					if e.Kind == 3 {
+						wantXFiltered++
 					}
 					if e.Kind == 1 {
 						wantFiltered++
@@ -272,8 +275,13 @@ func CheckC19(o *Outcome) *vh.Finding {
 					}
 				}
 			}
-			if int(inDrop) < wantDrop || int(inDrop) > wantDrop+garbage {
-				return vh.Fail("metrics:input-dropped", "stop %d: %d malformed + %d non-record lines were sent, input dropped = %v", so.Gen, wantDrop, garbage, inDrop)
+			// records dropped by an extraction-stage rule never reach a pipeline: for both balances to hold they have to be
+			// counted as dropped at the input (the property does not say more than the two equations)
+			if int(inDrop) < wantDrop || int(inDrop) > wantDrop+garbage+wantXFiltered {
+				return vh.Fail("metrics:input-dropped", "stop %d: %d malformed + %d non-record lines + %d records dropped by the extraction-stage rule were sent, input dropped = %v", so.Gen, wantDrop, garbage, wantXFiltered, inDrop)
+			}
+			if got := m.Sum("slogagent_input_labelled_records_total", "label=xfiltered"); int(got) != wantXFiltered {
+				return vh.Fail("metrics:label-count", "stop %d: %d records matched the extraction-stage drop rule, labelled counter 'xfiltered' = %v", so.Gen, wantXFiltered, got)
 			}
 			if got := m.Sum("slogagent_process_labelled_records_total", "label=filtered"); int(got) != wantFiltered {
 				return vh.Fail("metrics:label-count", "stop %d: %d records matched the drop rule, labelled counter 'filtered' = %v", so.Gen, wantFiltered, got)
